@@ -62,6 +62,7 @@ type Step struct {
 	Secs    int       `json:"secs,omitempty"`
 	Keys    []KeySpec `json:"keys,omitempty"`
 	Dev     bool      `json:"dev,omitempty"`
+	Table   bool      `json:"table,omitempty"` // part of the exhaustively enumerated decision table
 }
 
 // Plan is one request history.
@@ -73,6 +74,9 @@ type Plan struct {
 func (H) Generate(prop string, rng *rand.Rand, tier string) any {
 	if prop == "C13" {
 		return genC13(rng, tier)
+	}
+	if simkit.RunIndex%4 == 0 {
+		return tablePlan(simkit.RunIndex / 4)
 	}
 	p := &Plan{WithAuthenticator: rng.IntN(3) != 0}
 	n := 3 + rng.IntN(16)
@@ -422,6 +426,9 @@ func (s *state) request(si int, st Step, h http.Handler) {
 	desc := fmt.Sprintf("step %d: %s required r=%d w=%d cred=%s origin=%q auth=%s(%d,%d) dev=%v -> status %d ran=%v; expected: %s",
 		si, methods[st.Method], reqR, reqW, st.Cred, origin, st.Auth, permPool[st.AuthR], permPool[st.AuthW], s.dev, status, o.ran, ex.why)
 	rc.H("%s %s -> %d", methods[st.Method], st.Cred, status)
+	if st.Table {
+		rc.Probe("table-cells-enumerated")
+	}
 	credNote := credClass(st)
 	switch {
 	case ex.crossOrigin:
@@ -652,4 +659,56 @@ func (H) Shrink(prop string, plan any) []any {
 		}
 	}
 	return out
+}
+
+
+// ---- exhaustive part: the decision table (handler permission pair x method x credential state), partitioned over runs
+
+type credState struct {
+	cred          string
+	key, short    int
+	auth          string
+	authR, authW  int
+}
+
+var tableCreds = func() []credState {
+	cs := []credState{
+		{cred: "none", auth: "nil"},
+		{cred: "bearer", key: 0}, {cred: "bearer", key: 1}, {cred: "bearer", key: 2}, {cred: "basic", key: 0}, {cred: "bearer", key: 3},
+		{cred: "unknown"}, {cred: "short", short: 0}, {cred: "short", short: 1}, {cred: "short", short: 3},
+		{cred: "malformed", short: 0}, {cred: "malformed", short: 2}, {cred: "badcookie", auth: "nil"}, {cred: "bridge"},
+		{cred: "none", auth: "error"}, {cred: "none", auth: "denied"},
+	}
+	for _, perm := range []int{3, 4, 5, 6} { // Anyone, User, Admin, Self via the authenticator
+		cs = append(cs, credState{cred: "none", auth: "token", authR: perm, authW: perm})
+	}
+	return cs
+}()
+
+// TableSize is the number of cells of the decision table.
+func TableSize() int { return len(permPool) * len(permPool) * len(methods) * len(tableCreds) }
+
+const cellsPerRun = 12
+
+func tablePlan(part int) *Plan {
+	p := &Plan{WithAuthenticator: true}
+	// key 0: admin/admin, key 1: user/user, key 2: read admin / write anyone, key 3: expired
+	p.Steps = append(p.Steps, Step{Kind: "setkeys", Keys: []KeySpec{{Read: 3, Write: 3}, {Read: 2, Write: 2}, {Read: 3, Write: 1}, {Read: 3, Write: 3, Expires: 2}}})
+	total := TableSize()
+	for j := 0; j < cellsPerRun; j++ {
+		cell := (part*cellsPerRun + j) % total
+		c := cell
+		cr := tableCreds[c%len(tableCreds)]
+		c /= len(tableCreds)
+		m := c % len(methods)
+		c /= len(methods)
+		w := c % len(permPool)
+		r := c / len(permPool)
+		st := Step{Kind: "req", Method: m, ReqR: r, ReqW: w, Cred: cr.cred, Key: cr.key, Short: cr.short, Auth: cr.auth, AuthR: cr.authR, AuthW: cr.authW, Table: true}
+		if st.Auth == "" {
+			st.Auth = "nil"
+		}
+		p.Steps = append(p.Steps, st)
+	}
+	return p
 }
